@@ -5,6 +5,7 @@ import asyncio
 from fractions import Fraction
 
 from engine.harness import Harness
+from engine.vtime import real_timedelta
 from engine.symx import all_of, any_of, implies, neg
 from engine.vloop import Deadlock
 from harness.common import World, mem_places, place_names, run_async
@@ -29,6 +30,8 @@ def h10(S, max_m=2, extra_max=2, queues=1, max_limit=3, dmax_us=2000, zero=False
     report_error = S.flag("first_job_fails_after_its_actor_ran") if backend == "mem" and queues == 1 and not zero else False
     # the second queue's messages may arrive a few loop steps after the worker has started (the first queue's are there from the start)
     late_by = S.pick("second_queue_messages_arrive_after_loop_steps", stagger) if stagger and queues > 1 else 0
+    # the jobs may be recurring ones whose first run is due (never run yet): beyond M they stay ready, they do not skip a period
+    periodic = backend == "mem" and queues > 1 and not zero and not stagger and S.flag("recurring_jobs_on_their_first_run")
     started = []
     out = {}
     qnames = ["q%d" % i for i in range(queues)]
@@ -54,7 +57,7 @@ def h10(S, max_m=2, extra_max=2, queues=1, max_limit=3, dmax_us=2000, zero=False
         later = []
         for i in range(B):
             qn = qnames[i % queues]
-            j = Job("job_" + qn, queue=qn, args={"i": i}, id_=f"m{i}", retries=1,
+            j = Job("job_" + qn, queue=qn, args={"i": i}, id_=f"m{i}", retries=1, deferred_by=real_timedelta(hours=1) if periodic else None,
                     store_result=bool(report_error and i == 0), _connection=w.conn)
             if late_by and i % queues == 1:
                 later.append(j)
@@ -62,6 +65,13 @@ def h10(S, max_m=2, extra_max=2, queues=1, max_limit=3, dmax_us=2000, zero=False
                 continue
             key, _, params = await j.enqueue()
             before[f"m{i}"] = params
+        if periodic:
+            # their first slot has come: the broker has moved them to the ready queue
+            for qn in qnames:
+                q = w.broker.queues[qn]
+                for t in sorted(q.delayed):
+                    for m in q.delayed.pop(t):
+                        q.simple.put_nowait(m)
         if later:
             base = loop.iters
             prev_hook = loop.iter_hook
@@ -121,7 +131,7 @@ def h10(S, max_m=2, extra_max=2, queues=1, max_limit=3, dmax_us=2000, zero=False
             S.check("unprocessed-message-untouched", msg.parameters == out["before"][f"m{i}"])
             S.check("unprocessed-message-not-counted-as-retried", msg.parameters.retries.already_tried == 0)
     for i in started:
-        S.check("processed-message-gone", place_names(out["places"], f"m{i}") == [], info=str(place_names(out["places"], f"m{i}")))
+        S.check("processed-message-gone", place_names(out["places"], f"m{i}") == (["delayed"] if periodic else []), info=str(place_names(out["places"], f"m{i}")))
     S.check("nothing-left-in-flight", all("processing" not in place_names(out["places"], f"m{i}") for i in range(B)))
     if idle_queue:
         S.cover("late-arrival")
